@@ -52,6 +52,11 @@ pub fn gen_case(prop: &str, seed: u64) -> Case {
                 p.max_rows_per_insert = 4;
             }
             let bulk = krng.chance(1, 10);
+            if bulk {
+                // thousands of rows: not one row-set per row (every row-set keeps 2 files per
+                // column open; the process would run into its file-descriptor limit)
+                knobs.rowset_size = knobs.rowset_size.max(*krng.pick(&[65536usize, 1 << 20, 256 << 20]));
+            }
             let mut g = Gen::new(&mut wrng, p);
             let mut steps = if bulk { g.bulk_scenario() } else { g.history() };
             // always end with a reopen followed by statements the reopened database must accept
@@ -123,6 +128,9 @@ pub fn gen_case(prop: &str, seed: u64) -> Case {
             }
             p.pk_first_only = false;
             let bulk = krng.chance(1, 12);
+            if bulk {
+                knobs.rowset_size = knobs.rowset_size.max(*krng.pick(&[65536usize, 1 << 20, 256 << 20]));
+            }
             let mut g = Gen::new(&mut wrng, p);
             case.steps = if bulk { g.bulk_scenario() } else { g.history() };
         }
